@@ -21,6 +21,9 @@ class MatrixOfCellIdentifiersToken(RegexpBaseToken):
     @property
     def matrix(self) -> (Cell, Cell,):
         if self._matrix[0] is None:
+            if bool(self.value[7]) != bool(self.value[10]):
+                # A1:B or A:B2 - the regexp lets each end have a row of its own, an area needs both or none
+                raise E2PyclParserException(f'The area {self.value[0]} has a row on one side only')
             self._matrix = Cell(title=self.value[3].replace("''", "'") or self.value[4] or self.in_cell.title, column=self.value[5],
                                 row=self.value[7]), Cell(title=self.value[3].replace("''", "'") or self.value[4] or self.in_cell.title,
                                                          column=self.value[8], row=self.value[10])
